@@ -15,7 +15,7 @@ def _req():
         out.append("bridges/%s/delegate/%s" % (acc, "yes" if acc in ("bridge+synthetic", "bridge+static+synthetic") else "no") if acc != "synthetic" else "bridges/synthetic/delegate/yes")
     out += ["bridges/synthetic/delegate/no", "bridges/bridge+synthetic/none/no", "bridges/bridge+synthetic/two/no", "bridges/bridge+synthetic/nocode/no",
             "bridges/bridge+synthetic/base/yes", "bridges/bridge+synthetic/outside/yes"]
-    for where in ("sub", "base", "top", "nowhere"):
+    for where in ("sub", "base", "top", "nowhere", "shadow"):
         for ex in ("none", "plain", "rich"):
             out.append("mappings/%s/%s/class/update" % (where, ex))
     out += ["mappings/sub/none/noclass/same", "mappings/base/plain/class/same"]
